@@ -430,6 +430,11 @@ def predict(case, B, index_of):
             nullable = U
     if F.cat == 'any' and 'array' in byname:
         nullable = U              # no longer a plain gpointer; the convention does not say
+    if F.callable == 'callback' and 'closure' in byname and val['closure'] == 'V':
+        # "(closure) parameters and their corresponding user data parameters" are nullable by convention
+        nullable = M(True)
+    elif F.callable == 'callback' and 'closure' in byname and val['closure'] == 'U':
+        nullable = U
     if 'nullable' in byname:
         v = val['nullable']
         if v == 'V':
